@@ -1,6 +1,7 @@
 """C08 - posit width conversions: zero/NaR and saturation cells (R2); widening exactness by bit routing (R7) is in rules_routing."""
 import spec as S
 from props.common import *
+from aval import mask
 
 LEVEL = 'other'
 
@@ -24,7 +25,18 @@ def run(ctx):
             if not path:
                 continue
             lits = lits_for(prog, path, src.bits, depth=2)
+            import probes
             cells = cuts_to_cells(src.bits, list(lits) + special_cuts(src))
+            have = {c[0] for c in cells if c[0] == c[1]}
+            extra = set(probes.posit_probes(src, 2))
+            if dst.bits < src.bits:
+                # narrowing: source encodings at, just below and just above the rounding midpoints of the target format
+                pm = S.Posit(dst.bits + 1, dst.es)
+                for u in probes.posit_probes(dst):
+                    if 0 < u < dst.maxpos:
+                        e = src.posit.encode(pm.decode(2 * u + 1))
+                        extra |= {e, e + 1, e - 1, (-e) & mask(src.bits), (-(e + 1)) & mask(src.bits), (-(e - 1)) & mask(src.bits)}
+            cells += [c for c in probes.singles(sorted(x & mask(src.bits) for x in extra)) if c[0] not in have]
             st = run_cells(ctx, prog, 'GCR', '%s::%s' % (pty_owner.name, name), path,
                            lambda cell, src=src: [posit_arg(src, cell[0][0], cell[0][1], 0)], [cells],
                            conv_spec(src, dst), dst.bits, exhaustive_limit=256 if src.bits == 8 else 0)
